@@ -1203,7 +1203,7 @@ class Index(IndexBase):
             {skipna}
         '''
 
-        if id(other) == id(self):
+        if skipna and id(other) == id(self):
             return True
 
         if compare_class and self.__class__ != other.__class__:
